@@ -46,8 +46,13 @@ def run_worker(width, seed, n):
 def run(ctx):
     ctx.require("worker_processes", 5)
     ctx.require("wrapped_vs_unwrapped_compared", 200)
-    widths = [None, 40, 60, 79, 80, 100, 119, 120, 200] if ctx.quick() else [None] + list(range(40, 205, 5))
-    n = 60 if ctx.quick() else 500
+    if ctx.quick():
+        # a fixed spread plus seed-dependent widths (a defect may live in a band a few columns wide)
+        widths = [None, 40, 60, 79, 80, 100, 119, 120, 200] + sorted(ctx.rng.sample(range(41, 119), 7))
+        n = 60
+    else:
+        widths = [None] + list(range(40, 131)) + list(range(135, 205, 5))
+        n = 220
     pool = ThreadPoolExecutor(max_workers=16)
     futs = {w: pool.submit(run_worker, w, ctx.seed, n) for w in widths}
     for w, f in futs.items():
